@@ -79,6 +79,8 @@ def _check_power_applied(ctx: Ctx) -> None:
 
 
 MUTANTS = [
+    Mutant('noise-identity-sized-by-the-leaked-loop-index', ALGS, 'MMSEIASolver._calc_Uk',
+           [('replace', 'np.eye(self.Nr[k])', 'np.eye(self.Nr[i])')], r'C10\.f:MMSEIASolver\._calc_Uk:after-loop:i'),
     Mutant('per-user-count-leaks-into-later-loop', ALGS, 'IterativeIASolverBaseClass._solve_finalize',
            [('regex_all', r'for \(?k, n\)? in zip\(mod_users, num_significant_sing_values\):', 'for k in mod_users:')],
            r'C10\.f:IterativeIASolverBaseClass\._solve_finalize:leak:n'),
